@@ -878,7 +878,7 @@ def origin_calls(body, operand, pred, eb=None, limit=400):
 # success-path value of checked arithmetic (behaviour-preserving rewrites of `a * b + c`)
 
 
-def success_value(p, e, depth=0):
+def success_value(p, e, depth=0, keep=()):
     """Rewrite an expression to the value it has on the all-checks-pass path:
        Try::branch(x) as Continue .0 -> x ; Option::ok_or(o, _) / ok_or_else -> o ;
        checked_mul/add/sub(a, b) -> a*b / a+b / a-b ; Option::and_then/map(o, closure) -> closure(o);
@@ -886,12 +886,18 @@ def success_value(p, e, depth=0):
     if depth > 12:
         return e
     t = e[0]
-    rec = lambda x: success_value(p, x, depth + 1)
+    rec = lambda x: success_value(p, x, depth + 1, keep)
     if t == "field" and e[2] == "0" and e[1][0] == "variant" and e[1][2] in ("Continue", "Some", "Ok"):
         inner = e[1][1]
         if inner[0] == "call" and (inner[1].endswith("Try>::branch") or inner[1].endswith("Try::branch")):
-            return rec(inner[2][0])
-        return rec(inner)
+            inner = inner[2][0]
+        inner = rec(inner)
+        # a local validating helper: fn h(..) -> Result<T, E> whose only non-error return is Ok(payload)
+        if inner[0] == "call" and inner[1] in p.bodies and inner[1] not in keep and p.bodies[inner[1]].kind != "Closure":
+            sp = success_payload(p, inner[1], list(inner[2]))
+            if sp is not None:
+                return rec(sp)
+        return inner
     if t == "call":
         name = e[1]
         args = e[2]
@@ -925,6 +931,58 @@ def success_value(p, e, depth=0):
     if t == "field":
         return ("field", rec(e[1]), e[2])
     return e
+
+
+def success_payload(p, fn, actuals):
+    """payload of the single Ok(..)/Some(..) return of local function `fn` with its parameters
+    replaced by `actuals`; None if the function has no or several success returns"""
+    body = p.bodies.get(fn)
+    if body is None or len(actuals) != body.argc:
+        return None
+    eb = ExprBuilder(body)
+    pay = []
+    for bb, idx, item in body.defs().get(0, []):
+        if body.is_cleanup(bb):
+            continue
+        e = eb.at(bb, idx if idx != "term" else None).call(item) if idx == "term" else eb.at(bb, idx).rvalue(item["rv"])
+        if e[0] == "agg" and (e[1].endswith("Result::Ok") or e[1].endswith("Option::Some")) and len(e[2]) == 1:
+            pay.append(e[2][0])
+        elif e[0] == "agg" and (e[1].endswith("Result::Err") or e[1].endswith("Option::None")):
+            continue
+        elif e[0] == "call" and "from_residual" in e[1]:
+            continue
+        else:
+            return None
+    if len(pay) != 1:
+        return None
+    return subst_params(pay[0], actuals, {})
+
+
+def subst_params(e, actuals, caps):
+    def sub(e):
+        t = e[0]
+        if t == "arg" and isinstance(e[1], int) and 1 <= e[1] <= len(actuals):
+            return actuals[e[1] - 1]
+        if t == "upvar":
+            return caps.get(e[1].lstrip("*"), e)
+        if t == "field":
+            return ("field", sub(e[1]), e[2])
+        if t == "variant":
+            return ("variant", sub(e[1]), e[2])
+        if t == "idx":
+            return ("idx", sub(e[1]), sub(e[2]))
+        if t == "bin":
+            return ("bin", e[1], sub(e[2]), sub(e[3]))
+        if t in ("un", "cast"):
+            return (t, e[1], sub(e[2])) + tuple(e[3:])
+        if t == "call":
+            return ("call", e[1], tuple(sub(a) for a in e[2]))
+        if t == "agg":
+            return ("agg", e[1], tuple(sub(a) for a in e[2]), e[3] if len(e) > 3 else ())
+        if t == "len":
+            return ("len", sub(e[1]))
+        return e
+    return sub(e)
 
 
 def inline_body(p, body, actuals, closure_agg):
@@ -961,3 +1019,88 @@ def inline_body(p, body, actuals, closure_agg):
             return ("len", sub(e[1]))
         return e
     return sub(ret)
+
+
+# --------------------------------------------------------------------------------------
+# closure environments: captured variables by value, not by name
+
+
+def closure_env(p, cb):
+    """{capture name (without leading * / &): value expression in the constructing body's terms} for
+    closure body `cb`, read off the closure aggregate in its parent"""
+    dp = getattr(cb, "direct_parent", None) or cb.parent
+    parent = p.bodies.get(dp) if dp else None
+    if parent is None:
+        return {}, None
+    peb = ExprBuilder(parent)
+    for bb, i, st in parent.iter_stmts():
+        if st["k"] == "assign" and st["rv"]["k"] == "aggregate" and st["rv"]["kind"].get("k") == "closure" and st["rv"]["kind"].get("def") == cb.path:
+            env = {}
+            for c, o in zip(st["rv"]["kind"]["captures"], st["rv"]["ops"]):
+                env[c["name"].lstrip("*&")] = peb.at(bb, i).op(o)
+            return env, parent
+    return {}, parent
+
+
+def _tag_args(v, body):
+    """mark the parameters of an enclosing *closure* so that they cannot be confused with the
+    parameters of the closure whose expression is being resolved: arg2 -> {closure#0}:arg2"""
+    tag = body.path.rsplit("::", 1)[-1]
+
+    def f(n):
+        if n[0] == "arg" and not str(n[2] or "").startswith("{closure"):
+            return ("arg", n[1], "%s:%s" % (tag, n[2] or ("arg%d" % n[1])))
+        return None
+    from .loops import rewrite
+    return rewrite(v, f)
+
+
+def resolve_upvars(p, cb, e, depth=0):
+    """replace every captured variable in `e` (an expression of closure body `cb`) by the value the
+    constructing body gives it, transitively up to the enclosing function: the result mentions only
+    the enclosing function's parameters / values and the closures' own parameters (as `arg`), so a
+    rule can compare *what* is captured instead of what the variable is called"""
+    if cb is None or cb.kind != "Closure" or depth > 6:
+        return e
+    env, parent = closure_env(p, cb)
+
+    def sub(x):
+        t = x[0]
+        if t == "upvar":
+            v = env.get(x[1].lstrip("*&"))
+            if v is None:
+                return x
+            if parent is not None and parent.kind == "Closure":
+                v = _tag_args(v, parent)
+            return resolve_upvars(p, parent, v, depth + 1) if parent is not None else v
+        if t in ("field", "variant", "len", "discr", "repeat", "proj", "overflow"):
+            return (t, sub(x[1])) + tuple(x[2:])
+        if t == "idx":
+            return ("idx", sub(x[1]), sub(x[2]))
+        if t == "bin":
+            return ("bin", x[1], sub(x[2]), sub(x[3])) + tuple(x[4:])
+        if t in ("un", "cast"):
+            return (t, x[1], sub(x[2])) + tuple(x[3:])
+        if t == "call":
+            return ("call", x[1], tuple(sub(a) for a in x[2])) + tuple(x[3:])
+        if t == "agg":
+            return ("agg", x[1], tuple(sub(a) for a in x[2])) + tuple(x[3:])
+        if t == "subslice":
+            return ("subslice", sub(x[1])) + tuple(x[2:])
+        return x
+    return sub(e)
+
+
+def resolve_upvar_text(p, cb, text):
+    """the same on a rendered string (for truth-table atoms): `^name` / `^*name` -> <value>"""
+    env, parent = closure_env(p, cb)
+
+    def rep(m):
+        v = env.get(m.group(1))
+        if v is None:
+            return m.group(0)
+        if parent is not None and parent.kind == "Closure":
+            v = _tag_args(v, parent)
+        v = resolve_upvars(p, parent, v, 1) if parent is not None else v
+        return show(v)
+    return re.sub(r"\^[*&]*([A-Za-z_]\w*)", rep, text)
